@@ -42,7 +42,8 @@ var c10Cmt = map[string]string{
 }
 
 // payloads written on excluded lines: template directives, broken YAML, rule-looking text
-var c10Nasty = []string{"{% set x = 1 %}", "  - [", "    - alert: ZZ", "  expr: up{", "\tkey: :"}
+var c10Nasty = []string{"{% set x = 1 %}", "  - [", "    - alert: ZZ", "  expr: up{", "\tkey: :",
+	"{# zażółć gęślą jaźń — комментарий #}"}
 
 func c10Alphabet(textOnCtl bool) (out []c10Line) {
 	for _, t := range []string{"none", "P1", "P2"} {
@@ -66,10 +67,20 @@ func c10Benign(text, at string) string {
 	if at == "top" {
 		return n + ": 1"
 	}
+	if at == "inexpr" {
+		return "      + " + strings.TrimPrefix(n, "p")
+	}
 	return "  - {alert: " + text + ", expr: up}"
 }
 
 // the comment always starts at the same column, so replacing the text in front of it never moves it
+func c10RenderAt(text, cls, at string) string {
+	if at == "inexpr" && text == "" && c10Cmt[cls] != "" && cls != "IgnLine" && cls != "IgnFile" {
+		return "      " + c10Cmt[cls]
+	}
+	return c10Render(text, cls)
+}
+
 func c10Render(text, cls string) string {
 	c := c10Cmt[cls]
 	switch {
@@ -80,7 +91,11 @@ func c10Render(text, cls string) string {
 	case text == "" && cls != "IgnLine" && cls != "IgnFile":
 		return "  " + c
 	}
-	return fmt.Sprintf("%-27s %s", text, c)
+	// pad by BYTES: reported columns are byte offsets
+	if len(text) < 63 {
+		text += strings.Repeat(" ", 63-len(text))
+	}
+	return text + " " + c
 }
 
 // concrete lines of the abstract file at a placement; excluded lines get nasty payload #0
@@ -91,7 +106,7 @@ func c10Concrete(cs c10Case, at string) []string {
 		if cs.Doc[k].Excl != "no" && ln.Text != "none" {
 			txt = c10Nasty[0]
 		}
-		out[k] = c10Render(txt, ln.Cls)
+		out[k] = c10RenderAt(txt, ln.Cls, at)
 	}
 	return out
 }
@@ -111,6 +126,13 @@ func c10Embed(lines []string, at string) (content string, insertAfter int) {
 		all = append(all, lines...)
 		all = append(all, tail...)
 		insertAfter = len(head)
+	case "inexpr":
+		// inside a multi-line block scalar: positions of the expression must not depend on excluded text
+		all = append(all, "groups:", "- name: g", "  rules:", "  - alert: A1", "    expr: |", "      up")
+		insertAfter = len(all)
+		all = append(all, lines...)
+		all = append(all, "      > 0")
+		all = append(all, tail...)
 	default:
 		all = append(all, head...)
 		all = append(all, tail...)
@@ -120,7 +142,29 @@ func c10Embed(lines []string, at string) (content string, insertAfter int) {
 	return strings.Join(all, "\n") + "\n", insertAfter
 }
 
-func c10Hash(res pipe.Result) (string, []byte) {
+// c10Hash hashes the observable result. Position entries ON the replaced line itself (maskLine) are
+// left out: a range that spans the excluded line necessarily covers as many columns as that line is
+// long, which is not an influence of the excluded text on anything else.
+func c10Hash(res pipe.Result, maskLine int) (string, []byte) {
+	if maskLine > 0 {
+		reps := make([]pipe.Rep, len(res.Reports))
+		copy(reps, res.Reports)
+		for i := range reps {
+			ds := make([]pipe.Diag, len(reps[i].Diags))
+			copy(ds, reps[i].Diags)
+			for j := range ds {
+				var ps []pipe.Pos
+				for _, p := range ds[j].Pos {
+					if p.Line != maskLine {
+						ps = append(ps, p)
+					}
+				}
+				ds[j].Pos = ps
+			}
+			reps[i].Diags = ds
+		}
+		res.Reports = reps
+	}
 	type obs struct {
 		Entries []pipe.EntryInfo
 		Reports []pipe.Rep
@@ -161,6 +205,7 @@ func c10Shift(res *pipe.Result, after, n int) {
 func init() {
 	register("exec-c10", func(in []json.RawMessage, out *Out, args []string) error {
 		textOnCtl := os.Getenv("C10_TEXT_ON_CTL") == "1"
+		thorough := os.Getenv("VERIF_TIER") == "thorough"
 		alphabet := c10Alphabet(textOnCtl)
 		type rec = map[string]any
 		results := make([][]rec, len(in))
@@ -225,7 +270,7 @@ func init() {
 				if cs.Doc[k].Excl == "no" {
 					continue
 				}
-				for _, at := range []string{"top", "mid", "end"} {
+				for _, at := range []string{"top", "mid", "end", "inexpr"} {
 					for _, mode := range []string{"strict", "relaxed"} {
 						base := c10Concrete(cs, at)
 						seen := map[string]string{}
@@ -242,12 +287,17 @@ func init() {
 							texts := []string{""}
 							if v.Text != "none" {
 								texts = c10Nasty
+								if !thorough && v.Cls != "Plain" && v.Cls != "IgnLine" {
+									// quick tier: two of the payloads in front of other control comments, rotating
+									r := (idx + k) % len(c10Nasty)
+									texts = []string{c10Nasty[r], c10Nasty[(r+3)%len(c10Nasty)]}
+								}
 							}
 							for _, t := range texts {
 								lines := append([]string{}, base...)
-								lines[k] = c10Render(t, v.Cls)
-								content, _ := c10Embed(lines, at)
-								h, ob := c10Hash(run(content, mode == "strict"))
+								lines[k] = c10RenderAt(t, v.Cls, at)
+								content, after := c10Embed(lines, at)
+								h, ob := c10Hash(run(content, mode == "strict"), after+k+1)
 								n++
 								if _, ok := seen[h]; !ok {
 									seen[h] = content
@@ -282,15 +332,15 @@ func init() {
 				}
 			}
 			if pure {
-				for _, at := range []string{"top", "mid", "end"} {
+				for _, at := range []string{"top", "mid", "end", "inexpr"} {
 					for _, mode := range []string{"strict", "relaxed"} {
 						with, after := c10Embed(c10Concrete(cs, at), at)
 						without, _ := c10Embed(nil, at)
 						rw := run(with, mode == "strict")
 						ro := run(without, mode == "strict")
 						c10Shift(&ro, after, len(cs.File))
-						hw, ow := c10Hash(rw)
-						ho, oo := c10Hash(ro)
+						hw, ow := c10Hash(rw, 0)
+						ho, oo := c10Hash(ro, 0)
 						r := rec{"ev": "Shift", "id": id, "at": at, "mode": mode, "same": hw == ho, "diff": ""}
 						if hw != ho && !bytes.Equal(ow, oo) {
 							r["diff"] = map[string]string{"a": with, "b": without, "obs_a": string(ow), "obs_b": string(oo)}
